@@ -55,6 +55,11 @@ var contractPanics = map[string]bool{
 var curLI *LockInfo
 
 func allReach(li *LockInfo, roots []*ssa.Function) (map[*ssa.Function]bool, map[*ssa.Function]bool) {
+	return allReachSkipping(li, roots, nil)
+}
+
+// allReachSkipping: allReach that does not follow the call instructions for which skip reports true.
+func allReachSkipping(li *LockInfo, roots []*ssa.Function, skip func(ssa.Instruction) bool) (map[*ssa.Function]bool, map[*ssa.Function]bool) {
 	seen := map[*ssa.Function]bool{}
 	viaGo := map[*ssa.Function]bool{}
 	var visit func(f *ssa.Function, g bool)
@@ -68,6 +73,9 @@ func allReach(li *LockInfo, roots []*ssa.Function) (map[*ssa.Function]bool, map[
 		}
 		eachInstr(f, func(in ssa.Instruction) {
 			_, isGo := in.(*ssa.Go)
+			if skip != nil && skip(in) {
+				return
+			}
 			for _, h := range li.Callees[in] {
 				visit(h, g || isGo)
 			}
